@@ -174,7 +174,7 @@ def kernel_histories(repo: Repo, fis, binned: bool = False):
     return problems, n
 
 
-def history_free(repo: Repo, fis, rule, eff=None, histories=None):
+def history_free(repo: Repo, fis, rule, eff=None, histories=None, decided_elsewhere=()):
     """Rule helper: results do not depend on call history.
     (a) Effects: which functions write module-level state, directly or through callees, or hand out a memoised object.
     (b) With `histories` (problems per fq, count - see kernel_histories): a memo table is no violation by itself; whether it is
@@ -188,6 +188,10 @@ def history_free(repo: Repo, fis, rule, eff=None, histories=None):
     for fi in fis:
         s = eff.summaries[fi.fq]
         g = {t: m for t, m in s.mutates.items() if t.startswith('g:')}
+        for other in decided_elsewhere:
+            # module state that a callee writes and whose use is decided by that callee's histories
+            for t in eff.summaries[other.fq].mutates:
+                g.pop(t, None)
         cached = sorted(t for t in s.ret.cont if t.startswith('g:'))
         if problems.get(fi.fq):
             first = problems[fi.fq][0]
